@@ -108,6 +108,34 @@ template <class K, size_t S> struct Runner : IRunner {
       moved_from[id] = false;
       return guard([&] { tabs[id].reset(new Tbl(num(2))); return std::string("ok"); });
     }
+#ifdef VH_APOL
+    using Alloc = VAlloc<std::pair<const K, uint64_t>>;
+    if (op == "apol" && w.size() == 3) return num(2) == (uint64_t)(VH_APOL) ? "ok" : "bad-op";
+    if (op == "newa" && w.size() == 4) {
+      lts[id].reset();
+      moved_from[id] = false;
+      return guard([&] { tabs[id].reset(new Tbl(num(2), VHash(), std::equal_to<K>(), Alloc((int)num(3)))); return std::string("ok"); });
+    }
+    if ((op == "copya" || op == "movea") && w.size() == 4) {
+      size_t src = num(2);
+      if (src >= 8 || src == id || !tabs[src] || moved_from[src] || lts[src] || lts[id]) return "bad-table";
+      return guard([&] {
+        if (op == "copya") tabs[id].reset(new Tbl(*tabs[src], Alloc((int)num(3))));
+        else { tabs[id].reset(new Tbl(std::move(*tabs[src]), Alloc((int)num(3)))); moved_from[src] = true; }
+        moved_from[id] = false;
+        return std::string("ok");
+      });
+    }
+    if (op == "allocid" && w.size() == 2) {
+      if (!tabs[id] || moved_from[id]) return "bad-table";
+      // the allocator the table reports, the instance that owns its current bucket array, and the number of blocks
+      // that were handed back to an instance other than the one they came from (so far, process-wide)
+      int a = tabs[id]->get_allocator().id;
+      auto &bc = Access::buckets(*tabs[id]);
+      int own = bc.is_deallocated() ? a : AllocReg::owner_of(&bc[0]);
+      return "ok a=" + std::to_string(a) + " own=" + std::to_string(own) + " mism=" + std::to_string(AllocReg::mismatches().load());
+    }
+#endif
     if ((op == "copy" || op == "move" || op == "swap") && w.size() == 3) {
       size_t src = num(2);
       if (src >= 8 || !tabs[src] || moved_from[src] || lts[src] || lts[id]) return "bad-table";
@@ -125,7 +153,7 @@ template <class K, size_t S> struct Runner : IRunner {
           else tabs[id].reset(new Tbl(std::move(*tabs[src])));
           moved_from[src] = true;
         }
-        moved_from[id] = false;
+        moved_from[id] = (op == "move" && src == id);     // a self-move leaves a moved-from object
         return std::string("ok");
       });
     }
@@ -343,6 +371,7 @@ int main() {
     std::string out = r->line(w);
     fputs(out.c_str(), stdout);
     fputc('\n', stdout);
+    fflush(stdout);            // a crash in a later request must not swallow the answers given so far
   }
   return 0;
 }
